@@ -445,6 +445,15 @@ ADD_TEXT["C18"] = ADD_TEXT.get("C18", "") + (" Round 8: scripted profile queued-
 ADD_TEXT["C11"] = ADD_TEXT.get("C11", "") + (" Round 8: the transport suite also cuts inside the BEGIN line itself, at each of its six positions, with a pause.")
 ADD_TEXT["C01"] = ADD_TEXT.get("C01", "") + (" Round 8: grammar-corner signatures (dict entries with every kind of key, outside arrays, wrong arity, misnested) as SIGNATURE field, as g "
                     "value and as the type of a variant among the specials.")
+ADD_TEXT["C06"] = ADD_TEXT.get("C06", "") + (" Round 8: bus_client_policy_optimize is inside the model (Model/Bus/Policy.lean: PRule.catchAll - the repaired F17 test -, optimizeStep, optimize; "
+                    "the rule list a model connection holds is the optimized one, as in the daemon, at Hello and at reload) and it is a theorem that it changes no decision: "
+                    "optimize_changes_no_send_decision / _receive_ / _own_ and client_policy_decides_as_full_list, for every rule list, message, request state and peer "
+                    "(Proofs/PolicyOpt.lean: a rule the optimizer takes for a catch-all applies to everything of its type - catchAll_send_applies, catchAll_receive_applies -, "
+                    "and dropping rules a later always-applying rule overrides leaves the last-match verdict as it was). A change to the optimizer's test in bus/policy.c now shows as a "
+                    "disagreement between the daemon and a model whose decisions are proved equal to the documented evaluation.")
+ADD_TEXT["C13"] += (" 'Capacity freed by a release or disconnect becomes usable again' as theorems: removed_rule_frees_room (a successful RemoveMatch leaves exactly one rule fewer), "
+                    "below_rules_limit_not_refused, answered_call_frees_slot (an answered call no longer counts against its caller), departure_frees_connection (a registered "
+                    "connection that leaves makes the count of registered connections one smaller).")
 for _k, _v in ADD_TEXT.items():
     CHECKS[_k]["text"] = CHECKS[_k]["text"].rstrip() + _v
 for _k, _v in NEW_NOTE.items():
